@@ -682,10 +682,10 @@ static void do_q_interval(uint64_t &caseno, std::set<uint64_t> &nontriv) {
 typedef congruence<z_number> cg_t;
 static bool cg_contains(const cg_t &c, ll p) {
   if (c.is_bottom()) return false;
-  ll a = (long)c.get_modulo(), b = (long)c.get_remainder();
-  if (a == 0) return p == b;
-  ll d = (p - b) % a;
-  return d == 0;
+  // big-number arithmetic: moduli and remainders produced by shifts of the closed alphabet exceed 64 bits
+  z_number a = c.get_modulo(), b = c.get_remainder(), zp((long)p);
+  if (a == z_number(0)) return zp == b;
+  return (zp - b) % a == z_number(0);
 }
 static cg_t mk_cg(ll a, ll b) {
   // only public constructors: build aZ+b as (top*a)+b
